@@ -98,6 +98,39 @@ func stamped(t partition.Table, lss int) bool {
 	return true
 }
 
+// copyRangesOverlap: do the bytes ReadContents(from) reads and the bytes WriteContents(to) may write overlap
+// (from != to)?  Read side: [GetStart, GetStart+GetSize), at least one physical chunk (a GPT partition whose Size is
+// 0 reads one chunk).  Write side: [GetStart, GetStart + the larger of Size and the size computed from End).
+func copyRangesOverlap(dk *disk.Disk, from, to int, pss int) bool {
+	if from == to || dk.Table == nil {
+		return false
+	}
+	sp, err1 := dk.GetPartition(from)
+	tp, err2 := dk.GetPartition(to)
+	if err1 != nil || err2 != nil {
+		return false
+	}
+	chunk := int64(4096)
+	if int64(pss) > chunk {
+		chunk = int64(pss)
+	}
+	s0, sl := sp.GetStart(), sp.GetSize()
+	if sl < chunk {
+		sl = chunk
+	}
+	t0, tl := tp.GetStart(), tp.GetSize()
+	if g, ok := tp.(*gpt.Partition); ok && g.End >= g.Start {
+		l := unexportedInt(g, "logicalSectorSize")
+		if l <= 0 {
+			l = 512
+		}
+		if byEnd := int64(g.End-g.Start+1) * l; byEnd > tl {
+			tl = byEnd
+		}
+	}
+	return s0 < t0+tl && t0 < s0+sl
+}
+
 type dcase struct {
 	kind      string
 	mode      string // read | partition | hand | none
@@ -459,7 +492,17 @@ func runDiskCase(c *hx.Ctx, id string, r *hx.Rng) {
 		if from == to && dc.mode == "hand" {
 			to = from + 1000
 		}
-		c.Case(id+"/cp", "partio.copy", append(dc.common(), fmt.Sprintf("from=%d", from), fmt.Sprintf("to=%d", to))...)
+		// The model composes the two goroutines of CopyPartitionRaw sequentially (documented assumption of C13;
+		// copy_correct assumes disjoint ranges).  When the bytes the source's ReadContents will read and the bytes
+		// the target's WriteContents may write overlap (only hand-built partitions whose Size contradicts End get
+		// there), the outcome of the verification pass depends on the interleaving of ReadAt and WriteAt: such a
+		// pair is run and judged by the oracle below but not compared with the model.
+		modelled := !copyRangesOverlap(dk, from, to, dc.pss)
+		if modelled {
+			c.Case(id+"/cp", "partio.copy", append(dc.common(), fmt.Sprintf("from=%d", from), fmt.Sprintf("to=%d", to))...)
+		} else {
+			c.Stat("disk.copy.overlap-not-modelled")
+		}
 		d.ResetLog()
 		done := make(chan error, 1)
 		go func() {
@@ -474,7 +517,9 @@ func runDiskCase(c *hx.Ctx, id string, r *hx.Rng) {
 		select {
 		case cerr = <-done:
 		case <-time.After(30 * time.Second):
-			c.Impl(id+"/cp", "ws=timeout")
+			if modelled {
+				c.Impl(id+"/cp", "ws=timeout")
+			}
 			dc.fail(c, id+"/copy", "CopyPartitionRaw did not return within 30 s")
 			return
 		}
@@ -494,7 +539,9 @@ func runDiskCase(c *hx.Ctx, id string, r *hx.Rng) {
 		default:
 			out = "other"
 		}
-		c.Impl(id+"/cp", "ws="+wlog(d), "out="+out)
+		if modelled {
+			c.Impl(id+"/cp", "ws="+wlog(d), "out="+out)
+		}
 		ws, wt := firstWant(dc.wants, from), firstWant(dc.wants, to)
 		var problems []string
 		if wt == nil || wt.refuse {
